@@ -27,9 +27,11 @@ ASSUMPTIONS = [
     "`finally:` block) are not modelled",
     "the lock file: 'cannot be locked' is represented by a lock file below a missing directory / below a regular file (any "
     "OSError of open / flock takes the same `except OSError` -> exit 72); 'held by somebody else' by a second descriptor in "
-    "the same process that releases it once the run has logged that it waits. A Ctrl-C *while* the run waits for the lock "
-    "is not modelled (probed: the CancelledError leaves entry_point() outside the try, and the process only ends - status "
-    "SIGINT - once the lock is free, because the blocked flock thread is joined)",
+    "the same process that releases it once the run has logged that it waits; Ctrl-C during that wait by SIGINT / "
+    "Task.cancel() delivered when the run has logged that it waits (the CancelledError leaves entry_point() outside the "
+    "try; in-process the blocked flock thread then gets the lock and keeps it). That the process cannot end before the "
+    "lock is free (the thread is joined; probed with a real child process: alive 4 s after SIGINT, dies by SIGINT 0.1 s "
+    "after the lock is released) is a liveness matter outside the property and outside the model",
     "the artifacts directory: run directory names are modelled as numbers that sort like the names (`run-%Y%m%d-%H%M%S.%f` "
     "sorts like the time for years 1000-9999); 'cannot be created' is represented by an artifacts base that is a regular file "
     "and by an existing directory of the very name (clock pinned through `gallia.command.base.datetime`); failures after "
@@ -189,7 +191,7 @@ def impl_final(case, o):
     rk = rank_map(t.values())
     ex = o["exit"]
     if ex == "raise:cancelled":
-        ex = "esc:cancelled"
+        ex = "esc:lockwait" if o.get("exit_in_lock_wait") else "esc:cancelled"
     elif ex == "raise:UnboundLocalError":
         ex = "esc:hook"
     elif ex in ("raise:DatabaseError", "raise:ValueError", "raise:OperationalError") and case.get("dbopen") == "fail" and case["db"]:
@@ -466,7 +468,7 @@ def build_cases(ctx):
                                                                           **{key(p): a, key(q): b}))))
     # 6. the prologue: lock file free / held by another descriptor / not lockable x artifacts base situations
     for kind in (KINDS if full else ["plain", "uds"]):
-        for lock in ("free", "busy", "broken"):
+        for lock in ("free", "busy", "broken", "interrupted"):
             for label, wfrag in worlds():
                 for res in ("1111", "1100", "0111", "1011", "0100", "1000"):
                     if lock != "free" and res[0] == "0":
@@ -480,9 +482,12 @@ def build_cases(ctx):
                         c = mk(kind, res, flags="1111" if kind != "plain" else "0000", world=w, **sc)
                         if lock == "broken":
                             c.setdefault("how", {})["lock"] = rng.choice(HOW_F["lock"])
+                        if lock == "interrupted":
+                            c.setdefault("how", {})["cancel"] = rng.choice(HOW["cancel"])
                         cases.append(("prologue", pick_how(rng, c)))
-    ctx.exhaustive_parts.append("lock file free / held by a second descriptor until the run says it waits / in a missing "
-                                "directory or below a regular file x artifacts base fresh / with older runs / with a newer-named "
+    ctx.exhaustive_parts.append("lock file free / held by a second descriptor until the run says it waits / held while "
+                                "Ctrl-C (SIGINT, Task.cancel) arrives during the wait / in a missing directory or below a regular "
+                                "file x artifacts base fresh / with older runs / with a newer-named "
                                 "run / with a run without META.json / with a directory of the very name this run gets (clock "
                                 "pinned) / being a regular file x resource combinations x 4 scripts")
     # 7. seeded: two to four faults anywhere, hook failures mixed in, arbitrary exit codes, any world
@@ -501,11 +506,13 @@ def build_cases(ctx):
             ev["f_dumpcap"] = rng.choice(DUMPCAPS)
         world = None
         if rng.random() < 0.4:
-            world = dict(rng.choice(wl)[1], lock=rng.choice(["free", "free", "busy", "broken"]))
+            world = dict(rng.choice(wl)[1], lock=rng.choice(["free", "free", "busy", "broken", "interrupted"]))
         c = mk(kind, res, pre=rng.choice(["ok", "ok", "fail"]), post=rng.choice(["ok", "ok", "fail"]),
                dbopen=rng.choice(["ok"] * 5 + ["fail"]), flags="".join(rng.choice("01") for _ in range(4)), world=world, **ev)
         if world and world["lock"] == "broken":
             c.setdefault("how", {})["lock"] = rng.choice(HOW_F["lock"])
+        if world and world["lock"] == "interrupted":
+            c.setdefault("how", {})["cancel"] = rng.choice(HOW["cancel"])
         cases.append(("multi-fault", pick_how(rng, c)))
     # 8. the UDS scanner with its initial ping (wait_for_ecu: 0.5 s of real time each)
     for _ in range(ctx.pick(6, 32)):
@@ -757,14 +764,15 @@ MANIFEST = {
     "level_text": ("Lean 4 theorems over a statement-by-statement model of BaseCommand.entry_point (lock file, artifacts "
                    "directory, log handler, hooks, try / except ladder / finally) / AsyncScript.run / Scanner + UDSScanner setup "
                    "and teardown as lists of awaited steps / run_hook (Model/Lifecycle.lean): for every world (lock file free / "
-                   "held by somebody else / not lockable; any set of earlier run directories, any clock reading, artifacts base "
+                   "held by somebody else / held and Ctrl-C during the wait / not lockable; any set of earlier run directories, any clock reading, artifacts base "
                    "writable or not), every resource combination (lock, artifacts, database, hooks, power supply, dumpcap, "
                    "tester-present task, properties), command kind, hook outcome, database opening or not, and every exit kind "
                    "(return, sys.exit(n), sys.exit(non-int), expected / unexpected error, KeyboardInterrupt, cancellation of the "
                    "main task) at setup, main, teardown-before-super, teardown-after-super and at each of the framework's own "
                    "steps (power-supply connect, dumpcap, transport connect, ecu.connect, tester-present start / stop, "
                    "properties, ecu.transport.close, transport.close, dumpcap.stop): the returned code follows the mapping 0 / n / "
-                   "74 / 70 / 130 (72 and nothing else when the lock cannot be taken), META.json and the run_meta row carry that "
+                   "74 / 70 / 130 (72 and nothing else when the lock cannot be taken, the cancellation and nothing else when Ctrl-C "
+                   "arrives while waiting for the lock), META.json and the run_meta row carry that "
                    "code with ordered times, the log handler is closed, the database disconnected, the lock held throughout and "
                    "released, the post-hook sees the same code and META, failing hooks are reported and change nothing; a failing "
                    "setup step skips main and teardown, a raising teardown step replaces whatever main did, the artifacts "
@@ -782,7 +790,8 @@ MANIFEST = {
     "level_note": ("Trusted: Lean kernel (propext, Quot.sound, Classical.choice), the translator gen/c15_exit.py, the harness, "
                    "sqlite3/aiosqlite, zstandard, flock, subprocess, pathlib. Partial: process-level signal delivery and "
                    "interpreter exit are represented by KeyboardInterrupt / task cancellation and by the return value of "
-                   "entry_point(); Ctrl-C while waiting for a busy lock, faults inside the finally block's database completion, "
+                   "entry_point(); that a process interrupted while waiting for a busy lock only ends once the lock is free, faults "
+                   "inside the finally block's database completion, "
                    "failures of prepare_artifacts_dir after mkdir and the optional ECUReset / ping / power-cycle steps are not "
                    "modelled; for a run whose artifacts directory cannot be created the property names no ending, the model "
                    "follows the code (OSError escapes); config re-creation is only checked by round-tripping META.json's config "
